@@ -206,7 +206,7 @@ func runC04(c *core.Ctx) {
 			}
 			return true
 		})
-		c.Need(loop != nil && loop.Init != nil && loop.Cond != nil && loop.Post != nil, "calcFrameIdx has a for init;cond;post loop")
+		c.Need(loop != nil && loop.Cond != nil && loop.Post != nil, "calcFrameIdx has a counted for loop with a condition")
 		// self-parent frame variable: result 0
 		var spf *types.Var
 		if f.Type.Results != nil && len(f.Type.Results.List) > 0 && len(f.Type.Results.List[0].Names) > 0 {
@@ -233,14 +233,34 @@ func runC04(c *core.Ctx) {
 		c.Check(okSP, "self-parent frame is the stored self-parent's frame", "provenance", f.Pos(), "selfParentFrame = GetEvent(*e.SelfParent()).Frame() when a self-parent exists, else 0", "the starting frame is not the self-parent's frame")
 		// init: f = selfParentFrame
 		var fvar *types.Var
-		okInit := false
-		if as, ok := loop.Init.(*ast.AssignStmt); ok && len(as.Lhs) == 1 && len(as.Rhs) == 1 && varOf(f, as.Rhs[0]) == spf {
-			fvar = varOf(f, as.Lhs[0])
-			okInit = fvar != nil
-		}
 		okPost := false
-		if inc, ok := loop.Post.(*ast.IncDecStmt); ok && inc.Tok == token.INC && varOf(f, inc.X) == fvar {
-			okPost = true
+		if inc, ok := loop.Post.(*ast.IncDecStmt); ok && inc.Tok == token.INC {
+			fvar = varOf(f, inc.X)
+			okPost = fvar != nil
+		}
+		// start value: every definition of the loop variable that is made before the loop is entered
+		// (the loop's init clause or statements preceding the loop) must be the self-parent's frame
+		okInit := false
+		if fvar != nil {
+			nDefs, nGood := 0, 0
+			for _, a := range assignsToVar(f, fvar) {
+				if a.Stmt.Pos() >= loop.Body.Pos() || a.Tok == token.INC {
+					continue // inside / after the loop
+				}
+				if a.Stmt.Pos() > loop.End() {
+					continue
+				}
+				if a.RHS == nil {
+					if _, isSpec := a.Stmt.(*ast.ValueSpec); isSpec {
+						continue // `var f idx.Frame`: zero value, overwritten by the init clause
+					}
+				}
+				nDefs++
+				if a.RHS != nil && varOf(f, a.RHS) == spf {
+					nGood++
+				}
+			}
+			okInit = nDefs >= 1 && nDefs == nGood
 		}
 		c.Check(okInit && okPost, "loop starts at the self-parent's frame and steps by one", "loop shape", loop.Pos(), "for f = selfParentFrame; ...; f++", "the frame loop does not start at the self-parent's frame or does not step by one")
 		// cond: f < bound && forklessCausedByQuorumOn(e, f)
